@@ -26,6 +26,7 @@ FRAMER_PIP = 'pymodbus.framer.socket_framer.ModbusSocketFramer.processIncomingPa
 class Ghost:
     def __init__(self):
         self.raised = False     # an exception was raised by the transport / framer in this iteration
+        self.framer_raised = False   # ... by the framer (processIncomingPacket)
         self.reset = False      # framer.resetFrame() was called in this iteration
         self.closed = False     # the transport was closed
 
@@ -36,6 +37,7 @@ def stub_framer(E, G):
         k = E.choice('framer_outcome', ['ok'] + EXCS)
         if k != 'ok':
             G.raised = True
+            G.framer_raised = True
             raise E.Raised(k)
         return None
 
@@ -48,14 +50,14 @@ def context(E):
     return E.obj(S.CTX, single=E.bool('single'), _slaves={0: E.int('ctx', 1, None)})
 
 
-def sync_loop(cls):
+def sync_loop(cls, tag='C12', fate=None):
     def lemma(E):
         G = Ghost()
 
         calls = [0]
 
         def recv(n):
-            G.raised, G.reset = False, False          # first action of an iteration
+            G.raised, G.reset, G.framer_raised = False, False, False          # first action of an iteration
             calls[0] += 1
             if E.mode == 'concrete' and calls[0] > 3:   # the twin runs the real (endless) loop: stop it after three reads
                 h.running = False
@@ -75,19 +77,23 @@ def sync_loop(cls):
             req = sock
         h = E.obj(S.SY + cls, server=server, framer=stub_framer(E, G), request=req, socket=sock, client_address=('peer', 502), running=True)
         out = E.attempt(lambda: E.method(h, 'handle'), allow_cut=True)
-        E.prove('C12:no-exception-escapes-the-serving-loop', out.ok)
+        E.prove('%s:no-exception-escapes-the-serving-loop' % tag, out.ok)
         if out.cut:
-            E.prove('C12:after-an-exception-the-connection-is-closed-or-the-framer-reset', L.Implies(G.raised, L.Or(L.Not(L.truth(h.running)), G.reset, G.closed)))
+            E.prove('%s:after-an-exception-the-connection-is-closed-or-the-framer-reset' % tag, L.Implies(G.raised, L.Or(L.Not(L.truth(h.running)), G.reset, G.closed)))
+            if fate == 'closed':
+                E.prove('%s:a-framing-error-ends-the-connection' % tag, L.Implies(G.framer_raised, L.Or(L.Not(L.truth(h.running)), G.closed)))
+            elif fate == 'reset':
+                E.prove('%s:a-framing-error-resets-the-framer-and-serving-goes-on' % tag, L.Implies(G.framer_raised, L.And(G.reset, L.truth(h.running))))
     return lemma
 
 
-def asyncio_loop(cls):
+def asyncio_loop(cls, tag='C12', fate=None):
     def lemma(E):
         G = Ghost()
         calls = [0]
 
         def get():
-            G.raised, G.reset, G.closed = False, False, False
+            G.raised, G.reset, G.closed, G.framer_raised = False, False, False, False
             calls[0] += 1
             if E.mode == 'concrete' and calls[0] > 3:
                 h.running = False
@@ -109,9 +115,13 @@ def asyncio_loop(cls):
             out = E.attempt(lambda: E._run(lambda: asyncio.new_event_loop().run_until_complete(h.handle())))
         else:
             out = E.attempt(lambda: E.method(h, 'handle'), allow_cut=True)
-        E.prove('C12:no-exception-escapes-the-serving-loop', out.ok)
+        E.prove('%s:no-exception-escapes-the-serving-loop' % tag, out.ok)
         if out.cut:
-            E.prove('C12:after-an-exception-the-connection-is-closed-or-the-framer-reset', L.Implies(G.raised, L.Or(L.Not(L.truth(h.running)), G.reset, G.closed)))
+            E.prove('%s:after-an-exception-the-connection-is-closed-or-the-framer-reset' % tag, L.Implies(G.raised, L.Or(L.Not(L.truth(h.running)), G.reset, G.closed)))
+            if fate == 'closed':
+                E.prove('%s:a-framing-error-ends-the-connection' % tag, L.Implies(G.framer_raised, L.Or(L.Not(L.truth(h.running)), G.closed)))
+            elif fate == 'reset':
+                E.prove('%s:a-framing-error-resets-the-framer-and-serving-goes-on' % tag, L.Implies(G.framer_raised, L.And(G.reset, L.truth(h.running))))
     return lemma
 
 
